@@ -377,6 +377,13 @@ func (e *Env) exec(o Op) Res {
 		if o.N == -1 {
 			t = time.Time{} // the zero time: "leave unchanged" for package os
 		}
+		if o.N == -2 {
+			// only the access time is given, the modification time is omitted (still an owner-only call)
+			return res(v.Chtimes(o.P, SentinelTime(7), time.Time{}), "")
+		}
+		if o.N == -3 {
+			return res(v.Chtimes(o.P, time.Time{}, SentinelTime(9)), "")
+		}
 		return res(v.Chtimes(o.P, t, t), "")
 	case "Chdir":
 		return res(v.Chdir(o.P), "")
